@@ -136,7 +136,7 @@ func equals(t types.Type, x, y value) bool {
 	if b, ok := r.(bool); ok {
 		return b
 	}
-	panic(unsupported{"symbolic equality used where a concrete bool is required"})
+	panic(unsupported{reason: "symbolic equality used where a concrete bool is required"})
 }
 
 // eqValue returns bool or *sym.
@@ -186,7 +186,7 @@ func eqTerm(t types.Type, x, y value) *term {
 	if xs || ys {
 		a, b := scalarTerm(x), scalarTerm(y)
 		if a == nil || b == nil {
-			panic(unsupported{fmt.Sprintf("symbolic equality on %T/%T", x, y)})
+			panic(unsupported{reason: fmt.Sprintf("symbolic equality on %T/%T", x, y)})
 		}
 		return tCmp("=", a, b)
 	}
@@ -560,7 +560,7 @@ func (it *stringIter) next() tuple {
 		}
 		b, ok := it.s.b[it.i].(uint8)
 		if !ok || b >= 0x80 {
-			panic(unsupported{"range over symbolic string (rune decoding)"})
+			panic(unsupported{reason: "range over symbolic string (rune decoding)"})
 		}
 		okv[0], okv[1], okv[2] = true, it.i, rune(b)
 		it.i++
